@@ -58,7 +58,13 @@ pub fn run_input(ch: &mut Chunker, v: &Value) {
                 "every3" => Splitter::Every3,
                 _ => Splitter::None,
             };
-            rec_split(ch, &cps_to_string(&v["s"]), sp)
+            let pre = match v["pre"].as_str().unwrap_or("none") {
+                "hyphen" => Splitter::Hyphen,
+                "every2" => Splitter::Every2,
+                "every3" => Splitter::Every3,
+                _ => Splitter::None,
+            };
+            rec_split_pre(ch, &cps_to_string(&v["s"]), sp, pre)
         }
         "break" => rec_break(ch, &cps_to_string(&v["s"]), alpha_inv(v["lim"].as_i64().unwrap()), v["kind"] == "apart"),
         "wrap" => {
@@ -181,6 +187,9 @@ fn gen_c12(ch: &mut Chunker, r: &mut Rng, thorough: bool, scale: usize) {
         for sp in [Splitter::None, Splitter::Hyphen, Splitter::Every2] {
             rec_split(ch, &s, sp);
         }
+        // input words that already carry a penalty (pieces of an earlier split)
+        rec_split_pre(ch, &s, Splitter::Hyphen, Splitter::Every2);
+        rec_split_pre(ch, &s, Splitter::None, Splitter::Every3);
     }
     for s in all_strings(&['a', '\u{4f60}', '\u{301}', '\u{1b}', '[', 'm'], n) {
         for lim in 0..4 {
@@ -196,6 +205,9 @@ fn gen_c12(ch: &mut Chunker, r: &mut Rng, thorough: bool, scale: usize) {
             k => gen_para(r, &cfgs[k - 1]),
         };
         rec_split(ch, &s, *r.pick(&[Splitter::None, Splitter::Hyphen, Splitter::Hyphen, Splitter::Every2, Splitter::Every3]));
+        if !s.contains('\u{1b}') {
+            rec_split_pre(ch, &s, *r.pick(&[Splitter::None, Splitter::Hyphen, Splitter::Every2]), *r.pick(&[Splitter::Every2, Splitter::Every3]));
+        }
         let lim = *r.pick(&[0usize, 1, 1, 2, 2, 3, 4, 5, 8, usize::MAX]);
         rec_break(ch, &s, lim, r.chance(1, 2));
     }
